@@ -3,12 +3,16 @@
 package absnfs
 
 import (
+	"bytes"
 	"fmt"
 	"io"
 	"log"
 	"os"
+	"sync"
+	"sync/atomic"
 	"syscall"
 	"testing"
+	"time"
 
 	"verif.local/lib/evid"
 	"verif.local/lib/refs"
@@ -72,6 +76,109 @@ func TestVerif_C22(t *testing.T) {
 	}
 	rec.Eval(inst)
 	rec.Distinct(fmt.Sprintf("verifier-instances|distinct=%v", len(seen) == inst))
+	// an export that is BORN read-only and made writable at runtime still has a verifier that tells
+	// its instances apart (through the quick-start path Export, which takes the read-only flag along)
+	{
+		var prev *[8]byte
+		for round := 0; round < evid.Pick(3, 12); round++ {
+			fs := refs.New()
+			fs.PlantFile("/f", nil, 0666, 0, 0)
+			n, err := New(fs, ExportOptions{ReadOnly: true})
+			if err != nil {
+				break
+			}
+			vfQuiet(n)
+			if err := n.Export("/", 0); err != nil {
+				n.Close()
+				break
+			}
+			n.exportServer.logger.SetOutput(io.Discard)
+			p := *n.policy.Load()
+			p.ReadOnly = false
+			n.UpdatePolicyOptions(p)
+			sv := &vfSrv{fs: fs, bfs: fs, nfs: n, srv: n.exportServer, ph: &NFSProcedureHandler{server: n.exportServer}}
+			c := sv.client()
+			root, _ := c.mnt("/")
+			l, _ := c.lookup(root, "f")
+			if l != nil && l.Status == 0 {
+				w, _ := c.write(vfFH(l.FH), 0, 2, []byte("v"))
+				rec.Eval(1)
+				if w != nil && w.Status == 0 {
+					if prev != nil && *prev == w.Verf {
+						rec.Violate("C22/write-verifier-repeated-across-instances/born-read-only", fmt.Sprintf("two successive exports created read-only and made writable at runtime both use verifier %x", w.Verf), nil)
+					}
+					v := w.Verf
+					prev = &v
+				}
+			}
+			n.Unexport()
+			n.Close()
+		}
+		rec.Distinct("verifier-instances|born-read-only")
+	}
+	// two WRITEs to one file overlap: the one that is answered FILE_SYNC first has ITS bytes on
+	// stable storage at that moment, whatever the other one is doing
+	for ep := 0; ep < evid.Pick(6, 100); ep++ {
+		fs := refs.New()
+		fs.PlantFile("/f", make([]byte, 8192), 0666, 0, 0)
+		srv, err := vfNewSrv(fs, ExportOptions{AttrCacheTimeout: 1})
+		if err != nil {
+			break
+		}
+		c := srv.client()
+		root, _ := c.mnt("/")
+		l, _ := c.lookup(root, "f")
+		if l == nil || l.Status != 0 {
+			srv.Close()
+			break
+		}
+		fh := vfFH(l.FH)
+		slowOff := int64(4096)
+		parkAt := []string{"File.WriteAt", "File.Sync", "OpenFile"}[ep%3]
+		parked, open := make(chan struct{}), make(chan struct{})
+		var once sync.Once
+		var slowStarted atomic.Bool
+		fs.SetHook(func(op *refs.Op, ph refs.Phase) error {
+			if ph == refs.Before && slowStarted.Load() && op.Name == parkAt && op.Path == "/f" && (op.Name != "File.WriteAt" || op.Off == slowOff) {
+				first := false
+				once.Do(func() { first = true })
+				if first {
+					close(parked)
+					<-open
+				}
+			}
+			return nil
+		})
+		slowDone := make(chan struct{})
+		go func() {
+			defer close(slowDone)
+			slowStarted.Store(true)
+			srv.client().write(fh, uint64(slowOff), 2, bytes.Repeat([]byte{0xBB}, 64))
+		}()
+		select {
+		case <-parked:
+		case <-time.After(20 * time.Second):
+			rec.Inconclusive(1)
+			close(open)
+			srv.Close()
+			continue
+		}
+		slowStarted.Store(false) // the hook leaves the fast WRITE alone
+		fast := bytes.Repeat([]byte{0xAA}, 48)
+		w, _ := c.write(fh, 0, 2, fast)
+		rec.Eval(1)
+		if w != nil && w.Status == 0 && w.Committed == 2 {
+			d, _ := fs.DurableBytes("/f")
+			if len(d) < int(w.Count) || !bytes.Equal(d[:w.Count], fast[:w.Count]) {
+				rec.Violate("C22/acknowledged-data-not-durable/acknowledged-by=FILE_SYNC/while-another-write-to-the-file-is-in-flight", fmt.Sprintf("a WRITE at offset 0 was answered FILE_SYNC while another WRITE to the same file was parked at %s: its %d bytes are not in the durable state", parkAt, w.Count), nil)
+			}
+		}
+		close(open)
+		<-slowDone
+		fs.SetHook(nil)
+		rec.Distinct("overlapping-writes|parked-at=" + parkAt)
+		srv.Close()
+	}
 	// successive SERVER instances over one and the same AbsfsNFS (Export -> Unexport -> Export, or a
 	// new Server attached to the handler after the old one stopped): a restart the client must see
 	{
